@@ -227,3 +227,73 @@ func ReportTableWidth(w *World, r *Report) {
 		r.Unknown("R-TABLEWIDTH", "bitmap", "-", "no function storing into the mask tables found")
 	}
 }
+
+// ReportMaskWord: a mask derived from the in-word offset of a position (x&63) is applied to the word that position
+// lies in. When the masked operand is directly a load C[idx] of a word container, idx must be x>>6; a loop
+// variable that merely starts at x>>6 applies the checkpoint's mask to every word the loop visits.
+func ReportMaskWord(w *World, r *Report, names ...string) {
+	r.Rule("R-MASKWORD", "where a word loaded as C[idx] is masked with a mask built from the offset x&63 of a position x, idx is x>>6 (the word x lies in), not a different or a moving word index")
+	for _, n := range names {
+		fn := findFunc(w, n)
+		if fn == nil || fn.Blocks == nil {
+			continue
+		}
+		fa := w.FA(fn)
+		bad := ""
+		nsite := 0
+		eachInstr(fn, func(ins ssa.Instruction) {
+			bo, ok := ins.(*ssa.BinOp)
+			if !ok || (bo.Op != token.AND && bo.Op != token.AND_NOT) {
+				return
+			}
+			for _, side := range [2][2]ssa.Value{{bo.X, bo.Y}, {bo.Y, bo.X}} {
+				cont, idx, ok := asElemLoad(side[0])
+				if !ok || !isWordSlice(cont.Type()) {
+					continue
+				}
+				if g, isG := cont.(*ssa.Global); isG && maskTables[g.Name()] {
+					continue
+				}
+				ms, ok := fa.MaskOf(side[1])
+				if !ok {
+					continue
+				}
+				var pos ssa.Value
+				for _, L := range []Lin{ms.N, ms.N.Add(linConst(-1))} {
+					if v := fa.AtomValueOfLin(L); v != nil {
+						if x, j, ok := asLowMask(v); ok && j == 6 {
+							pos = x
+						}
+					}
+				}
+				if pos == nil {
+					continue
+				}
+				nsite++
+				want := linAtom("(>> " + fa.VN(stripConv(pos)) + " c:6)")
+				want2 := linAtom("(>> " + fa.VN(pos) + " c:6)")
+				got := fa.Lin(idx)
+				// pos = 64*idx + (in-word offset): the position was assembled from this very word index
+				assembled := false
+				if pl := fa.Lin(pos); len(got.T) > 0 {
+					d := pl.Sub(linConst(0).addScaled(got, 64))
+					assembled = true
+					for atom := range got.T {
+						if d.T[atom] != 0 {
+							assembled = false
+						}
+					}
+					for atom := range got.T {
+						if pl.T[atom] == 0 {
+							assembled = false
+						}
+					}
+				}
+				if !got.Eq(want) && !got.Eq(want2) && !assembled {
+					bad = fmt.Sprintf("the word %s[%s] is masked at %s with a mask built from the offset of position %s, which lies in word %s", containerRole(cont), got, w.InstrPos(ins), fa.Lin(pos), want)
+				}
+			}
+		})
+		r.Check(bad == "", "R-MASKWORD", n, w.Pos(fn.Pos()), bad, fmt.Sprintf("%d offset masks applied to directly loaded words, each to the word of its position", nsite))
+	}
+}
